@@ -35,7 +35,19 @@ void mpq_EGlpNumSet(mpq_t v, const double d) { v->_mp_num._mp_size = nondet_int(
 static dbl_QSdata *mk_dbl(void) { dbl_QSdata *p = qsv_alloc(sizeof *p); p->qslp = qsv_alloc(sizeof *p->qslp); p->lp = qsv_alloc(sizeof *p->lp); p->qslp->ncols = NS; p->qslp->nrows = NS; p->lp->final_phase = nondet_int(); p->simplex_display = 0; return p; }
 static mpf_QSdata *mk_mpf(void) { mpf_QSdata *p = qsv_alloc(sizeof *p); p->qslp = qsv_alloc(sizeof *p->qslp); p->lp = qsv_alloc(sizeof *p->lp); p->qslp->ncols = NS; p->qslp->nrows = NS; p->lp->final_phase = nondet_int(); p->basis = 0; p->simplex_display = 0; return p; }
 int g_basis_live;	/* ghost: QSbasis objects handed out by the stubs and not yet freed */
-static QSbasis *mk_basis(void) { QSbasis *b = qsv_alloc(sizeof *b); g_basis_live++; b->nstruct = NS; b->nrows = NS; b->cstat = malloc(NS); b->rstat = malloc(NS); return b; }
+#ifndef NSB
+#define NSB NS	/* columns / rows of the basis objects the stubs hand out */
+#endif
+#ifndef NRB
+#define NRB NS
+#endif
+static QSbasis *mk_basis(void)
+{	QSbasis *b = qsv_alloc(sizeof *b); int i; g_basis_live++; b->nstruct = NSB; b->nrows = NRB; b->cstat = malloc(NSB); b->rstat = malloc(NRB);
+	for (i = 0; i < NSB; i++) if (b->cstat) b->cstat[i] = nondet_char();
+	for (i = 0; i < NRB; i++) if (b->rstat) b->rstat[i] = nondet_char();
+	return b; }
+/* ghost: content of the basis that went through the last accepted exact optimality test */
+char g_cert_cs[NSB + 1], g_cert_rs[NRB + 1]; int g_cert_ns = -1, g_cert_nr = -1;
 int dbl_QSload_basis(dbl_QSdata *p, QSbasis *B) { return nondet_int(); }
 int dbl_ILLeditor_solve(dbl_QSdata *p, int a) { return nondet_int(); }
 int dbl_QSget_status(dbl_QSdata *p, int *s) { *s = nondet_int(); return nondet_int(); }
@@ -44,7 +56,12 @@ int dbl_QSget_itcnt(dbl_QSdata *p, int *a, int *b, int *c, int *d, int *e) { if 
 int dbl_QSget_x_array(dbl_QSdata *p, double *x) { return nondet_int(); }
 int dbl_QSget_pi_array(dbl_QSdata *p, double *x) { return nondet_int(); }
 int dbl_QSget_infeas_array(dbl_QSdata *p, double *x) { return nondet_int(); }
-QSbasis *dbl_QSget_basis(dbl_QSdata *p) { return nondet_bool() ? mk_basis() : 0; }
+#ifdef FN_ebasis	/* allocation failure is not the subject of the hand-over group */
+#define MAYBE_BASIS() mk_basis()
+#else
+#define MAYBE_BASIS() (nondet_bool() ? mk_basis() : 0)
+#endif
+QSbasis *dbl_QSget_basis(dbl_QSdata *p) { return MAYBE_BASIS(); }
 void dbl_QSfree_prob(dbl_QSdata *p) { if (p) { free(p->qslp); free(p->lp); free(p); } }
 int mpf_QSload_basis(mpf_QSdata *p, QSbasis *B) { return nondet_int(); }
 int mpf_ILLeditor_solve(mpf_QSdata *p, int a) { return nondet_int(); }
@@ -54,7 +71,7 @@ int mpf_QSget_itcnt(mpf_QSdata *p, int *a, int *b, int *c, int *d, int *e) { if 
 int mpf_QSget_x_array(mpf_QSdata *p, mpf_t *x) { return nondet_int(); }
 int mpf_QSget_pi_array(mpf_QSdata *p, mpf_t *x) { return nondet_int(); }
 int mpf_QSget_infeas_array(mpf_QSdata *p, mpf_t *x) { return nondet_int(); }
-QSbasis *mpf_QSget_basis(mpf_QSdata *p) { return nondet_bool() ? mk_basis() : 0; }
+QSbasis *mpf_QSget_basis(mpf_QSdata *p) { return MAYBE_BASIS(); }
 void mpf_QSfree_prob(mpf_QSdata *p) { if (p) { free(p->qslp); free(p->lp); free(p); } }
 void mpf_QSfree_basis(QSbasis *b) { if (b) { g_basis_live--; free(b->cstat); free(b->rstat); free(b); } }
 void mpq_QSfree_basis(QSbasis *b) { if (b) { g_basis_live--; free(b->cstat); free(b->rstat); free(b); } }
@@ -73,7 +90,9 @@ int mpq_QSload_basis(mpq_QSdata *p, QSbasis *B) { int r = nondet_int(); DIRTY();
 
 /* same-TU callees whose bodies are removed and replaced by their (ghost) contracts */
 int QSexact_optimal_test(mpq_QSdata *p, mpq_t *p_sol, mpq_t *d_sol, QSbasis *basis)
-{ int r = nondet_bool(); DIRTY(); g_opt_cert = r; if (r) { g_cert_x = p_sol; g_cert_y = d_sol; } return r; }
+{ int r = nondet_bool(), i; DIRTY(); g_opt_cert = r; if (r) { g_cert_x = p_sol; g_cert_y = d_sol;
+	if (basis) { g_cert_ns = basis->nstruct; g_cert_nr = basis->nrows; for (i = 0; i < NSB; i++) if (i < basis->nstruct) g_cert_cs[i] = basis->cstat[i]; for (i = 0; i < NRB; i++) if (i < basis->nrows) g_cert_rs[i] = basis->rstat[i]; } }
+  return r; }
 int QSexact_infeasible_test(mpq_QSdata *p, mpq_t *d_sol)
 { int r = nondet_bool(); DIRTY(); g_inf_cert = r; if (r) { g_cert_y = d_sol; } return r; }
 void optimal_output(mpq_QSdata *p, mpq_t *const x, mpq_t *const y, mpq_t *x_mpq, mpq_t *y_mpq)
@@ -147,6 +166,34 @@ void harness(void)
 		ASSERT(p->cache == 0, "C18: the stale solution cache is discarded before the basis is re-evaluated");
 		ASSERT(qsv_gmp_live == live0 - 1, "C18: the number embedded in the discarded cache (cache->val) is cleared, and every number the function initialises itself is cleared again");
 	}
+	REACH_END();
+}
+#elif defined(FN_ebasis)
+/* C12 "a basis handed back with an OPTIMAL result": QSexact_solver (REAL) called with the caller's in/out basis object --
+ * empty, or holding arrays from an earlier solve of the same dimensions.  After rval 0 / OPTIMAL the object holds exactly
+ * the basis that went through the accepted exact optimality test: its dimensions and EVERY column and row status. */
+void harness(void)
+{
+	mpq_QSdata *p = qsv_alloc(sizeof *p);
+	QSbasis *eb = qsv_alloc(sizeof *eb);
+	int algo = nondet_int(), status, rv, i; IN_BOOL(warm);
+	p->qslp = qsv_alloc(sizeof *p->qslp); p->lp = qsv_alloc(sizeof *p->lp);
+	p->qslp->nrows = NS; p->qslp->sinfo = 0; p->qslp->rA = 0; p->lp->nrows = NS; p->lp->pIpiz = 0;
+	p->cache = 0; p->basis = 0; p->simplex_display = 0; p->name = 0;
+	{ IN_INT(sb_verb); __QS_SB_VERB = sb_verb; }
+	if (warm) { eb->nstruct = NSB; eb->nrows = NRB; eb->cstat = malloc(NSB); eb->rstat = malloc(NRB); for (i = 0; i < NSB; i++) eb->cstat[i] = nondet_char(); for (i = 0; i < NRB; i++) eb->rstat[i] = nondet_char(); }
+	else { eb->nstruct = 0; eb->nrows = 0; eb->cstat = 0; eb->rstat = 0; }
+	g_opt_cert = 0; g_inf_cert = 0; g_out_opt = 0; g_out_inf = 0;
+	rv = QSexact_solver(p, 0, 0, eb, algo, &status);
+	if (rv == 0 && status == QS_LP_OPTIMAL) {
+		ASSERT(g_opt_cert == 1, "C01 gating: OPTIMAL with rval 0 only after a passed exact optimal test");
+		ASSERT(eb->nstruct == g_cert_ns && eb->nrows == g_cert_nr && eb->cstat != 0 && eb->rstat != 0, "C12: the basis handed back with OPTIMAL has the dimensions of the certified basis");
+		for (i = 0; i < NSB; i++) ASSERT(eb->cstat[i] == g_cert_cs[i], "C12: every column status handed back is the certified basis's");
+		for (i = 0; i < NRB; i++) ASSERT(eb->rstat[i] == g_cert_rs[i], "C12: every row status handed back is the certified basis's (all rows, also beyond the number of columns)");
+	}
+	free(eb->cstat); free(eb->rstat); free(eb);
+	ASSERT(g_basis_live == 0, "C18: every basis object obtained during the precision ladder is released or handed over");
+	COVER_MUST(rv == 0 && status == QS_LP_OPTIMAL && warm, "optimal_warm");
 	REACH_END();
 }
 #elif defined(FN_verify)
